@@ -62,8 +62,13 @@ class InitMethod(MethodDescriptor):
                         instance_attr_spec = instance_metadata.attrs[attr]
                         if instance_attr_spec.owner is not parent:
                             continue
-                        if not instance_attr_spec.init:
-                            # Not a constructor argument of the parent.
+                        if (
+                            not instance_attr_spec.init
+                            or attr == instance_metadata.init_overflow_attr
+                        ):
+                            # Not a constructor argument of the parent. (A
+                            # keyword named like the overflow attribute is an
+                            # overflow keyword like any other.)
                             continue
                         if kwargs.get(attr, MISSING) is MISSING:
                             # (The key parameter of the generated constructor
